@@ -213,49 +213,9 @@ results = run_children(histories)
 t_run = time.time() - t0
 
 
-def violations(h, oc):
-    """indices of observations that contradict the property, with (table observed, kind)"""
-    out = []
-    inited, touched, failed = set(), set(), set()      # (table, group)
-    for i, (e, o) in enumerate(zip(h, oc)):
-        k = e[0]
-        if k == "init" and e[2] != "pub":
-            if o == "OOk":
-                inited.add((e[2], KEYS[e[1]]))
-            else:
-                failed.add((e[2], KEYS[e[1]]))
-        if k in ("set", "mut") and o in ("OOk",):
-            touched.add((e[1], GROUP_OF[e[3]]))
-        X = e[1] if k in ("read", "has") else (e[2] if k == "calc" else "pub")
-        if k == "read":
-            grp = GROUP_OF[e[3]]
-            claimed = X == "pub" or ((X, grp) in inited and (X, grp) not in touched
-                                     and (grp != "base" or {(X, "base")} <= inited))
-            if grp == "base" and X != "pub":
-                # mass and density are two inits of one group: both must have run
-                claimed = (e[3] == "mass" or any(h[j][0] == "init" and h[j][2] == X and h[j][1] == "density.init"
-                                                 and oc[j] == "OOk" for j in range(i))) and (X, "base") not in touched
-            if claimed and o != "OSame":
-                out.append((i, X))
-        elif k == "has" and X == "pub":
-            c = can["read"].get((e[2], e[3]))
-            if o != "(OBool %s)" % ("true" if c and c[0] == "val" else "false"):
-                out.append((i, X))
-        elif k == "calc" and X == "pub":
-            if o != "OSame":
-                out.append((i, X))
-        elif k == "import":
-            if o != "OOk":
-                out.append((i, "pub"))
-        elif k in ("parse", "pickle"):
-            if o != "(OBool true)":
-                out.append((i, e[1]))
-    return out
-
-
-def observe(h):
-    r = run_child(h)["out"]
-    return [classify(e, o, can) for e, o in zip(h, r)]
+violations = lambda h, oc: c10_violations(h, oc, can)
+_observe = observe
+observe = lambda h: _observe(h, can)
 
 
 def modname(key):
@@ -358,6 +318,17 @@ for key, (prefix, oc_last) in todo:
     if still_fails([slim])[0]:
         prefix = slim
     m = minimise(prefix, still_fails)
+    f0 = m[-1]
+    X0 = f0[1] if f0[0] in ("read", "has", "parse", "pickle") else (f0[2] if f0[0] == "calc" else "pub")
+
+    def viol_last(cands):
+        out = []
+        for cand, res in zip(cands, run_children(cands)):
+            oo = [classify(e, r, can) for e, r in zip(cand, res["out"])]
+            out.append(any(i == len(cand) - 1 for i, _ in violations(cand, oo)))
+        return out
+    if f0[0] not in ("parse", "pickle"):
+        m = prefer_read(m, X0, viol_last)
     o = observe(m)
     explained.append((key[:3], culprit_set(m, len(m) - 1, o)))
     sig = signature(m, o)
@@ -365,8 +336,8 @@ for key, (prefix, oc_last) in todo:
         continue
     seen_sig.add(sig)
     f, before = m[-1], m[:-1]
-    what = ("after [%s], `%s` gives %s; the property requires what the canonical order serves on the public table"
-            % ("; ".join(text_event(e) for e in before), text_event(f), o[-1]))
+    what = ("after [%s], `%s` %s; the property requires what the canonical order serves on the public table"
+            % ("; ".join(text_event(e) for e in before), text_event(f), words(o[-1])))
     fails.append(dict(signature=sig, what=what, history=m, history_text=[text_event(e) for e in m], outcomes=o))
 
 print(json.dumps(dict(
